@@ -46,6 +46,7 @@ func c15RGroup(a []string) string {
 		for _, c := range cs {
 			c.cleanup()
 		}
+		c15DetachInput(g)
 	}()
 	for _, k := range strings.Split(a[1], ",") {
 		if !strings.HasPrefix(k, "rtp") && !strings.HasPrefix(k, "wsrtp") {
@@ -117,6 +118,8 @@ func c15RGroup(a []string) string {
 				if i < len(cs) {
 					err = cs[i].disposeAndSettle()
 				}
+			case 'I':
+				err = c15AttachInput(g, op[1:])
 			case 'i':
 				err = c15Inbound(cs, op[1:])
 			case 's':
